@@ -34,8 +34,17 @@ CHECKS = {
  "C17": dict(technique="Lean 4 proof (counts, result lines, verdict independent of the reporter) + six-reporter differential with independent XML parsing",
    text="Theorem C17_agree (Props/C17.lean) over the one logic difference between reporters (suite finish through finish_test vs finish_suite); tie: each scenario runs under text, quiet, CUTE, XML, libxml2 and CDash, counts/attribution/verdict are recovered from each native format (expat for XML) and compared pairwise and with the model.",
    ref="§6 C17"),
+ "C06": dict(technique="Lean 4 refinement proof (global queue = one FIFO per function) + step-by-step state correspondence with mocks.c through the queue-dump hook (ASan)",
+   text="Theorems C06_step_refines, C06_tally_refines, C06_earliest, C06_times (every n), C06_always, C06_independent (Props/C06.lean); tie: random and long (growth-boundary crossing) histories of expect/always/never/call/tally over four functions are executed on the real mocks.c in an ASan/UBSan build, outputs and the pending queue (function, time to live, counters) are compared with the model after every operation, and outputs with the per-function FIFO specification.",
+   ref="§6 C06"),
+ "C07": dict(technique="Lean 4 proofs of the counting statements and of 'passes iff k = n' for every n,k + correspondence + arithmetic oracle on systematic families",
+   text="Theorems C07_unsatisfied_one_failure, C07_times_check, C07_never_tally, C07_never_violated, C07_always_silent, C07_unexpected, C07_decl_after_always/never, C07_times_iff (Props/C07.lean); tie: systematic times(n) x calls x mode families judged by an independent arithmetic oracle, plus the C06 histories, on the real mocks.c.",
+   ref="§6 C07"),
 }
-NOTES = {"C04": RUNNER_NOTE + " C04 additionally assumes that fork() gives the child a private copy of all memory (isolation of arbitrary user memory is the kernel's).", "C13": RUNNER_NOTE + " The test program's own globals are not the framework's to reset; the theorem excludes tests that read a global another test wrote.", "C17": RUNNER_NOTE, "C01": RUNNER_NOTE, "C02": RUNNER_NOTE, "C03": RUNNER_NOTE, "C08": RUNNER_NOTE, "C18": RUNNER_NOTE}
+MOCK_NOTE = ("Trusted: Lean kernel, harness/mock_ops.c and the CGREEN_VERIF queue-dump hook, the generators in harness/mock_checks.py. Modelled, not verified: parameter "
+             "constraints are integer eq/ne/lt/gt clauses on up to three parameters, return values are integers; side effects, content setters, "
+             "capture and double clauses are covered by C12/C15/C16; removal of never_expect entries is modelled as a filter (equivalent under the invariant of at most one per function).")
+NOTES = {"C06": MOCK_NOTE, "C07": MOCK_NOTE, "C04": RUNNER_NOTE + " C04 additionally assumes that fork() gives the child a private copy of all memory (isolation of arbitrary user memory is the kernel's).", "C13": RUNNER_NOTE + " The test program's own globals are not the framework's to reset; the theorem excludes tests that read a global another test wrote.", "C17": RUNNER_NOTE, "C01": RUNNER_NOTE, "C02": RUNNER_NOTE, "C03": RUNNER_NOTE, "C08": RUNNER_NOTE, "C18": RUNNER_NOTE}
 
 hooks_commits = subprocess.run(["git", "-C", "/repo", "log", "--format=%h %s", "--grep=^verif hook"], capture_output=True, text=True).stdout.strip().split("\n")
 m = {"version": 1, "setup_cmd": "./setup.sh",
